@@ -41,7 +41,7 @@ def gen_methods(rng, n, with_dup_path=False):
                 if val[d] or arr[d]:
                     continue
                 arr[d] = True
-                ps.append((d, "IFoo", "[%d]" % rng.randint(1, 3), "p%d" % len(ps)))
+                ps.append((d, rng.choice(["IFoo", "IFoo", "interface"]), "[%d]" % rng.randint(1, 3), "p%d" % len(ps)))
             elif kind in ("SO", "ST"):
                 ps.append((d, kind, None, "p%d" % len(ps)))
             else:
@@ -56,7 +56,7 @@ def gen_methods(rng, n, with_dup_path=False):
         # shapes random choice rarely reaches: an object array in each direction beside object structs
         k = len(ms)
         ms[k - 2] = ("m%d" % (k - 2), [("out", "IFoo", "[%d]" % rng.randint(2, 3), "p0"), ("out", "SO", None, "p1"), ("out", "uint32", None, "p2")])
-        ms[k - 1] = ("m%d" % (k - 1), [("in", "IFoo", "[%d]" % rng.randint(2, 3), "p0"), ("out", "IFoo", "[%d]" % rng.randint(1, 3), "p1"),
+        ms[k - 1] = ("m%d" % (k - 1), [("in", "interface", "[%d]" % rng.randint(2, 3), "p0"), ("out", "interface", "[%d]" % rng.randint(1, 3), "p1"),
                                       ("in", "SO", None, "p2"), ("out", "ST", None, "p3")])
     if with_dup_path:
         ms.append(("m%d" % len(ms), [("in", "SN", None, "p0"), ("out", "SN", None, "p1")]))
@@ -268,11 +268,11 @@ def cpp_side(methods):
             elif sh:
                 n = int(sh[1:-1])
                 if d == "in":
-                    sig.append("const IFoo (&%s_ref)[%d]" % (pn, n))
+                    sig.append("const %s (&%s_ref)[%d]" % ("ProxyBase" if t == "interface" else "IFoo", pn, n))
                     for j in range(n):
                         log.append("    L_obj(%d, %s_ref[%d].get());" % (pin[(i, j)], pn, j))
                 else:
-                    sig.append("IFoo (&%s_ref)[%d]" % (pn, n))
+                    sig.append("%s (&%s_ref)[%d]" % ("ProxyBase" if t == "interface" else "IFoo", pn, n))
                     for j in range(n):
                         post.append("    { Object o = cobj_get(pat_out(%d, %d, v)); %s_ref[%d].consume(o); }" % (k, pout[(i, j)], pn, j))
             else:
@@ -313,9 +313,10 @@ def cpp_side(methods):
             elif sh:
                 n = int(sh[1:-1])
                 if d == "in":
-                    L.append("  IFoo %s[%d] = { %s };" % (pn, n, ", ".join("IFoo(cobj_get(pat_in(%d, %d, v)))" % (k, pin[(i, j)]) for j in range(n))))
+                    acls = "ProxyBase" if t == "interface" else "IFoo"
+                    L.append("  %s %s[%d] = { %s };" % (acls, pn, n, ", ".join("%s(cobj_get(pat_in(%d, %d, v)))" % (acls, k, pin[(i, j)]) for j in range(n))))
                 else:
-                    L.append("  IFoo %s[%d];" % (pn, n))
+                    L.append("  %s %s[%d];" % ("ProxyBase" if t == "interface" else "IFoo", pn, n))
                     for j in range(n):
                         L.append("  { Object o = cobj_get(pat_pre(%d, %d, v)); %s[%d].consume(o); }" % (k, pout[(i, j)], pn, j))
                         outs.append("  L_obj(%d, %s[%d].get());" % (pout[(i, j)], pn, j))
@@ -422,11 +423,11 @@ def rust_side(methods, tests, out, nval):
             elif sh:
                 n = int(sh[1:-1])
                 if d == "in":
-                    sig.append("%s: &[Option<IFoo>; %d]" % (pn, n))
+                    sig.append("%s: &[%s; %d]" % (pn, rust_ty(t, True), n))
                     for j in range(n):
                         log.append("        L_obj(%d, raw(%s[%d].as_ref()));" % (pin[(i, j)], pn, j))
                 else:
-                    retty.append("[Option<IFoo>; %d]" % n)
+                    retty.append("[%s; %d]" % (rust_ty(t, True), n))
                     rets.append("[%s]" % ", ".join("mk(pat_out(%d, %d, v))" % (k, pout[(i, j)]) for j in range(n)))
             else:
                 if d == "in":
@@ -462,7 +463,7 @@ def rust_side(methods, tests, out, nval):
             elif sh:
                 n = int(sh[1:-1])
                 if d == "in":
-                    L.append("    let %s: [Option<IFoo>; %d] = [%s];" % (pn, n, ", ".join("mk(pat_in(%d, %d, v))" % (k, pin[(i, j)]) for j in range(n))))
+                    L.append("    let %s: [%s; %d] = [%s];" % (pn, rust_ty(t, True), n, ", ".join("mk(pat_in(%d, %d, v))" % (k, pin[(i, j)]) for j in range(n))))
                     args.append("&" + pn)
                 else:
                     pats.append(pn)
